@@ -255,7 +255,9 @@ WaitDone(w) == (w.untilFired /\ (w.forTid = 0 \/ w.forFired)) \/ (Mut = "M16" /\
 \* the environment fires one armed timer of the current wait (harness-initiated)
 \* The environment's stimulus budget: scenario runs deliver one stimulus at a time (nothing else ready), so that
 \* every printed behaviour is reproducible; ties between ready sources are judged in the record direction.
-Quiet == st.ctlq = <<>> /\ ~WaitDone(st.wait) /\ ~st.wait.rbFired
+\* (the model configurations deliver one stimulus at a time; a recorded run under a slow consumer delivers several, and
+\* then the machine's select takes the ready branches in an order of its own: every order is a behaviour)
+Quiet == ~Bounded \/ (st.ctlq = <<>> /\ ~WaitDone(st.wait) /\ ~st.wait.rbFired)
 Budget == ~Bounded \/ IF st.pc = "R7" THEN st.nChecks < MaxChecks /\ st.cnt.check < MaxChecks + 1
           ELSE st.cnt.ping < 2 /\ st.nAsk < MaxRebootAsks
 FireTimer(which) ==
@@ -278,9 +280,10 @@ FireTimer(which) ==
 \* was answered): nobody is listening any more.  Only time passes.
 FireStale(tid) ==
   \* (a timer of this process that has not fired yet)
-  /\ st.pc \in {"R7", "W3", "OP"} /\ tid \in (st.tidBase + 1)..st.ids.tid /\ tid \notin st.firedT /\ (~Bounded \/ (st.nStale < MaxStale /\ (st.pc = "OP" \/ (Quiet /\ Budget))))
+  /\ (st.pc \in {"R7", "W3", "OP"} \/ ~Bounded) /\ tid \in (st.tidBase + 1)..st.ids.tid /\ tid \notin st.firedT /\ (~Bounded \/ (st.nStale < MaxStale /\ (st.pc = "OP" \/ (Quiet /\ Budget))))
   /\ IF st.pc = "OP" THEN ~(st.op.kind = "idle" /\ tid = st.ids.tid) /\ ~(st.inWfr /\ tid = st.wait.rbTid)
-                     ELSE tid \notin {st.wait.untilTid, st.wait.forTid, st.wait.rbTid}
+     ELSE IF st.pc \in {"R7", "W3"} THEN tid \notin {st.wait.untilTid, st.wait.forTid, st.wait.rbTid}
+     ELSE TRUE     \* (a recorded run under a slow consumer: the model is ahead of the moment the timer fired)
   /\ LET backoff == st.pc = "OP" /\ st.op.kind = "idle"
          at == IF st.pc = "OP" THEN st.op.kind ELSE "idle"
          n == IF st.pc = "OP" THEN st.op.n ELSE st.cnt.idle + 1 IN
@@ -432,7 +435,7 @@ R4_ReportWait ==
 \* :369-374 the select of the idle loop.  With several sources ready the choice is free (select! is pseudo-random);
 \* scenario runs constrain it to one ready source.
 R7_TakeTimer ==
-  /\ st.pc = "R7" /\ WaitDone(st.wait) /\ st.ctlq = <<>>
+  /\ st.pc = "R7" /\ WaitDone(st.wait) /\ (st.ctlq = <<>> \/ ~Bounded)
   /\ st' = [st EXCEPT !.pc = "R8", !.ck = [CkInit EXCEPT !.optSrc = "scheduledtask", !.reqId = 0]]
   /\ UNCHANGED <<obs, g, script>>
 R7_TakeCtl ==
@@ -450,13 +453,19 @@ R8_Allowed(a) ==
          reply == IF st.ck.reqId # 0
                     THEN <<Stamp([k |-> "ctl.reply", req |-> st.ck.reqId, ans |-> IF pos THEN "started" ELSE "throttled"], Tick(c0))>>
                     ELSE <<>> IN
-     /\ Emit(<<Stamp([k |-> "pol.check", n |-> n, apps |-> st.apps, sched |-> SchedArg(st.ctx), ps |-> PsOf(st.ctx),
-                      src |-> st.ck.optSrc, ans |-> a], c0)>> \o (IF pos THEN <<>> ELSE reply))
-     /\ script' = script \o Ans("pol.check", n, a)
-     /\ st' = [st EXCEPT !.clk = Tick(c0), !.cnt.check = n,
-                         !.pc = IF pos THEN "P1" ELSE "R4",
-                         !.respOwed = IF pos THEN reply ELSE <<>>,
-                         !.ck.params = [src |-> src, dis |-> a.dis, same |-> a.same]]
+     \* requests still queued when the check starts are answered AlreadyRunning by the check's own select (:418-433)
+     /\ LET drain == IF pos THEN [i \in 1..Len(st.ctlq) |-> Stamp([k |-> "ctl.reply", req |-> st.ctlq[i].req, ans |-> "already"], Tick(c0))]
+                           ELSE <<>>
+            od == pos /\ \E i \in 1..Len(st.ctlq) : st.ctlq[i].src = "ondemand" IN
+        /\ Emit(<<Stamp([k |-> "pol.check", n |-> n, apps |-> st.apps, sched |-> SchedArg(st.ctx), ps |-> PsOf(st.ctx),
+                         src |-> st.ck.optSrc, ans |-> a], c0)>> \o (IF pos THEN <<>> ELSE reply))
+        /\ script' = script \o Ans("pol.check", n, a)
+        /\ st' = [st EXCEPT !.clk = Tick(c0), !.cnt.check = n,
+                            !.pc = IF pos THEN "P1" ELSE "R4",
+                            !.respOwed = IF pos THEN reply \o drain ELSE <<>>,
+                            !.ctlq = IF pos THEN <<>> ELSE @,
+                            !.ck.optSrc = IF od THEN "ondemand" ELSE @,
+                            !.ck.params = [src |-> src, dis |-> a.dis, same |-> a.same]]
 
 (***************************************************************************)
 (* The check: P1 ... P20, S3 ... S6.                                       *)
@@ -875,8 +884,12 @@ OpDone ==
   /\ st.pc = "OP" /\ st.op.kind # "idle"
   /\ st' = [st EXCEPT !.pc = st.op.next, !.clk = Tick(@)]
   /\ UNCHANGED <<obs, g, script>>
+\* (under a slow consumer the request is logged while the model has already moved on within the check: same answer)
+InCheckPc == st.pc \notin {"B0", "R4", "R5", "R7", "R8", "R11", "R12", "W1", "W2", "W3", "W9", "G2", "END", "DONE"}
+                /\ ~(st.pc \in {"O2", "OP", "O4"} /\ st.rq.kind = "ping")
 CtlSendBusy(src) ==
-  /\ st.pc = "OP" /\ RMode = "start" /\ (~Bounded \/ st.nCtl < MaxCtl) /\ (IF Bounded THEN ~st.op.ctl ELSE ~st.inWfr)
+  /\ (st.pc = "OP" \/ (~Bounded /\ InCheckPc)) /\ RMode = "start" /\ (~Bounded \/ st.nCtl < MaxCtl)
+  /\ (IF Bounded THEN ~st.op.ctl ELSE ~st.inWfr)
   /\ LET id == st.ids.req + 1 IN
      /\ Emit(<<Stamp([k |-> "ctl.send", req |-> id, h |-> 0, src |-> src], st.clk),
                Stamp([k |-> "ctl.reply", req |-> id, ans |-> "already"], st.clk)>>)
@@ -922,7 +935,7 @@ W3_RebootTimer(a) ==
                          Stamp([k |-> "tm.arm", tid |-> tid, t |-> "for", d |-> [s |-> 1800, ns |-> 0], ms |-> 1800000], Tick(st.clk))>>)
                /\ st' = [st EXCEPT !.clk = Tick(@), !.cnt.allowed = n, !.ids.tid = tid, !.wait.rbTid = tid, !.wait.rbFired = FALSE, !.nAsk = @ + 1]
 W3_PingTimer ==
-  /\ st.pc = "W3" /\ WaitDone(st.wait) /\ ~st.wait.rbFired /\ st.ctlq = <<>>
+  /\ st.pc = "W3" /\ WaitDone(st.wait) /\ (~Bounded \/ (~st.wait.rbFired /\ st.ctlq = <<>>))
   /\ st' = [st EXCEPT !.pc = "O2", !.wait.untilFired = FALSE, !.wait.forFired = FALSE, !.wait.untilTid = 0, !.wait.forTid = 0,
                       !.rq = [kind |-> "ping", apps |-> PingPayload(st.apps), ret |-> "G2", res |-> "none", ans |-> NoAns]]
   /\ UNCHANGED <<obs, g, script>>
@@ -1030,8 +1043,6 @@ Done == st.pc = "DONE"
 (***************************************************************************)
 FairSpec == Spec /\ WF_vars(Next)
 \* C14: every started check delivers its result
-InCheckPc == st.pc \notin {"B0", "R4", "R5", "R7", "R8", "R11", "R12", "W1", "W2", "W3", "W9", "G2", "END", "DONE"}
-                /\ ~(st.pc \in {"O2", "OP", "O4"} /\ st.rq.kind = "ping")
 CheckEnds == InCheckPc ~> (g.c.nResult >= 1 \/ st.nCrash > 0)
 ResultDelivered == [](InCheckPc => <>(~InCheckPc))
 \* C11: every control request is eventually answered
